@@ -8,6 +8,7 @@ import GM.Model.Table
 import GM.Spec.Table
 import GM.Proof.Table
 import GM.Props.Consts.Table
+import GM.Props.ConvertX
 
 namespace GM.Props.C17
 open GM GM.Table
@@ -154,5 +155,10 @@ example : (parseRow [96, 97, 92, 124, 98, 96, 124, 99] ⟨0, 8, 0⟩ [.none, .no
 
 /-- (package consts) the four delimiter-row regular expressions and the literals of extension/table.go are the table model's -/
 theorem consts_table_regexps_tied : GM.Spec.Consts.allOk GM.Spec.Consts.tableRegexps = true := GM.Props.Consts.Table.table_regexps_tied
+
+/-- (re-export of `GM.Props.ConvertX.convertx_tables_rectangular_partial`) `convertx_tables_rectangular`, transformer level: whatever paragraph the table transformer of the composed model is
+    called on, the table it builds nodes for (`GM.Table.transform`'s, handed to `buildTable`) has ≥ 1 column, a header with
+    exactly one cell per column and body rows with exactly one cell per column (GM.Props.C17.table_rectangular). -/
+theorem convertx_tables_rectangular_partial : type_of% @GM.Props.ConvertX.convertx_tables_rectangular_partial := @GM.Props.ConvertX.convertx_tables_rectangular_partial
 
 end GM.Props.C17
